@@ -59,9 +59,9 @@ def gen_values(ctx):
   import objtypes
   rng = ctx.rng
   out = []
-  for _ in range(ctx.n(350, 8000)):
+  for _ in range(ctx.n(350, 5000)):
     out.append(pv.gen_value(rng))
-  for _ in range(ctx.n(60, 1500)):
+  for _ in range(ctx.n(60, 1000)):
     out.append(pv.gen_datetime(rng))
     out.append(pv.gen_date(rng))
   for _ in range(ctx.n(25, 400)):
@@ -230,6 +230,7 @@ def correspond(ctx):
   import objtypes
   core.setup_impl_path()
   monitors(ctx)
+  ctx.log('monitors done')
   vals = gen_values(ctx)
   ctx._c24_values = vals
   enc_cases, enc_meta, dec_cases, dec_meta = [], [], [], []
@@ -279,6 +280,7 @@ def correspond(ctx):
       add_encode(d[0], True)
 
   imports = ['Grist.Lib.PyFloat', 'Grist.Model.Values']
+  ctx.log('literals: %d encode, %d decode cases' % (len(enc_cases), len(dec_cases)))
   bad = ctx.run_cases('encode', imports,
                       'fun c => match c with (v, tbl, e) => value_eqb (encode_f (oracles_of tbl) %d v) e end' % FUEL,
                       enc_cases, shard=100)
@@ -291,7 +293,9 @@ def correspond(ctx):
   for k in bad[:6]:
     ctx.broken('correspondence:model decode_f differs from objtypes.decode_object',
                'encoded %r -> %s' % (dec_meta[k], pv.to_expr(objtypes.decode_object(dec_meta[k]))[:200]))
+  ctx.log('encode/decode evaluated')
   correspond_bundles(ctx, vals)
+  ctx.log('bundles evaluated')
   ctx.extra['cases_in_coq'] = len(enc_cases) + len(dec_cases)
 
 
@@ -371,6 +375,9 @@ def correspond_bundles(ctx, vals):
           ctx.violation('not-marshalable', 'marshal.dumps of a to_json_obj bundle failed: %s' % ex, {'bundle': repr(out)[:500]})
     except RecursionError:
       continue
+    except Exception as ex:
+      ctx.broken('correspondence:ActionBundle.to_json_obj output is outside the encoded-value universe', repr(ex)[:300])
+      continue
   bad = ctx.run_cases('bundle', ['Grist.Lib.PyFloat', 'Grist.Model.Values'],
                       'fun c => match c with (bd, tbl, out) => value_eqb (to_json_obj (oracles_of tbl) %d bd) out end' % FUEL,
                       cases, shard=20)
@@ -412,7 +419,7 @@ def monitors(ctx):
   m = ctx.n(3000, 60000)
   for i in range(m):
     z = rng.choice(zones) if i % 2 else rng.choice(allz)
-    zone = moment.Zone(z)
+    zone = moment.get_zone(z)
     u = rng.choice([rng.randint(lo + 86400 * 10 ** 6, hi - 86400 * 10 ** 6), rng.randint(-3 * 10 ** 15, 3 * 10 ** 15)])
     if zone.untils and rng.random() < 0.5:
       u = int(rng.choice(zone.untils)) * 1000 + rng.randint(-4 * 3600 * 10 ** 6, 4 * 3600 * 10 ** 6)
@@ -457,7 +464,9 @@ def search(ctx):
     except RecursionError:
       expr = None
     ctx.violation(kind, what, {'expr': expr, 'kind': kind})
+  ctx.log('value search done')
   engine_replies(ctx)
+  ctx.log('engine replies done')
 
 
 FORMULAS = [
